@@ -81,3 +81,18 @@ Example C15_example_value :
   finish TCollectVec (pe_of p src) 5 (kind_of p) 0 (ws s) = RList [10; 30; 50]%Z /\
   fst (finish_seq TCollectVec (flat_map (trace p) src) src p) = RList [10; 30; 50]%Z.
 Proof. vm_compute. repeat split. Qed.
+
+(** ... stated on the extracted function itself: for every case (indexed source, micro-schedule, no
+    injected panic, not pre-advanced) whose settings resolve to a well-formed runner, if [exec]
+    took its parallel branch, completed and did not panic, its value is the value its sequential
+    branch computes for the same computation *)
+Theorem C15_exec_value : forall (c : case),
+  c_panic c = None -> c_pre c = 0 -> c_macro c = false -> c_iter c = false ->
+  (forall task len r, runner_new (ps_params (c_st c)) task len (c_avail c) = Some r -> runner_wf r) ->
+  (kind_of (c_p c) = KMap -> forall x, length (yields (trace (c_p c) x)) = 1) ->
+  (forall f, red_family (c_term c) = Some f ->
+     (forall a b c0, f (f a b) c0 = f a (f b c0)) /\ (forall a b, f a b = f b a)) ->
+  o_sequential (exec c) = false -> o_complete (exec c) = true -> o_result (exec c) <> RPanic ->
+  req (o_result (exec c)) (c_seqval c).
+Proof. exact exec_value. Qed.
+Print Assumptions C15_exec_value.
